@@ -155,6 +155,7 @@ type universe struct {
 	stress     bool // long CIDR / port lists, so that programs are split in the middle of a rule
 	family     bool // the CIDR pool holds nested CIDRs sharing a base address
 	cidrStress bool // rules whose CIDR lists are arrangements of the nested family
+	plainFrag  bool // only criteria the Gallina emitters model (no CIDRs, no IP sets, no named ports)
 	keyStress  bool // rules with several IP-set-type lookups on one leg (selector set, then ports, then named-port set)
 	cidrs      []cidrT
 	other      []cidrT
@@ -440,25 +441,25 @@ func (u *universe) genRule(r *rng, action string, feat string) ruleG {
 	}
 
 	srcNets, notSrcNets, dstNets, notDstNets := "nC", "nC", "nC", "nC"
-	if on(25) {
+	if !u.plainFrag && on(25) {
 		var cq []string
 		pr.SrcNet, cq = u.pickCIDRs(r)
 		srcNets = coqListT(cq, "nC")
 		crit++
 	}
-	if on(10) {
+	if !u.plainFrag && on(10) {
 		var cq []string
 		pr.NotSrcNet, cq = u.pickCIDRs(r)
 		notSrcNets = coqListT(cq, "nC")
 		crit++
 	}
-	if on(25) {
+	if !u.plainFrag && on(25) {
 		var cq []string
 		pr.DstNet, cq = u.pickCIDRs(r)
 		dstNets = coqListT(cq, "nC")
 		crit++
 	}
-	if on(10) {
+	if !u.plainFrag && on(10) {
 		var cq []string
 		pr.NotDstNet, cq = u.pickCIDRs(r)
 		notDstNets = coqListT(cq, "nC")
@@ -466,19 +467,19 @@ func (u *universe) genRule(r *rng, action string, feat string) ruleG {
 	}
 
 	srcSets, notSrcSets, dstSets, notDstSets, dstIPPort := "nN", "nN", "nN", "nN", "nN"
-	if on(15) {
+	if !u.plainFrag && on(15) {
 		var cq []string
 		pr.SrcIpSetIds, cq = u.pickSets(r, false, 2)
 		srcSets = coqListT(cq, "nN")
 		crit++
 	}
-	if on(8) {
+	if !u.plainFrag && on(8) {
 		var cq []string
 		pr.NotSrcIpSetIds, cq = u.pickSets(r, false, 2)
 		notSrcSets = coqListT(cq, "nN")
 		crit++
 	}
-	if on(15) {
+	if !u.plainFrag && on(15) {
 		var cq []string
 		maxDst := 1
 		if r.pct(4) {
@@ -488,13 +489,13 @@ func (u *universe) genRule(r *rng, action string, feat string) ruleG {
 		dstSets = coqListT(cq, "nN")
 		crit++
 	}
-	if on(8) {
+	if !u.plainFrag && on(8) {
 		var cq []string
 		pr.NotDstIpSetIds, cq = u.pickSets(r, false, 2)
 		notDstSets = coqListT(cq, "nN")
 		crit++
 	}
-	if on(8) {
+	if !u.plainFrag && on(8) {
 		var cq []string
 		pr.DstIpPortSetIds, cq = u.pickSets(r, true, 2)
 		dstIPPort = coqListT(cq, "nN")
@@ -506,7 +507,7 @@ func (u *universe) genRule(r *rng, action string, feat string) ruleG {
 	portField := func(ranges *[]*proto.PortRange, named *[]string, rc, nc *string) {
 		prs, cq := u.pickRanges(r)
 		*ranges, *rc = prs, coqListT(cq, "nP")
-		if len(prs) == 0 || r.pct(25) {
+		if !u.plainFrag && (len(prs) == 0 || r.pct(25)) {
 			var ncq []string
 			*named, ncq = u.pickSets(r, true, 2)
 			*nc = coqListT(ncq, "nN")
@@ -1294,7 +1295,10 @@ func main() {
 			u.keyStress = true
 			u.nestPortMembers(r)
 		}
-		if g.feat == "" && !u.stress && !u.keyStress && r.pct(20) {
+		if !u.stress && !u.keyStress && r.pct(22) {
+			u.plainFrag = true
+		}
+		if g.feat == "" && !u.stress && !u.keyStress && !u.plainFrag && r.pct(20) {
 			u.cidrStress = true
 			if !u.family {
 				u.addFamily(r)
@@ -1350,6 +1354,9 @@ func main() {
 		if u.cidrStress {
 			tags = append(tags, "cidrs:nested-list-stress")
 		}
+		if u.plainFrag {
+			tags = append(tags, "emit:fragment-stream")
+		}
 		if g.invalid {
 			tags = append(tags, "domain:outside")
 		}
@@ -1371,7 +1378,7 @@ func main() {
 			// the jump limit is swept below
 			stride = 100 + r.intn(1000)
 			tags = append(tags, "split:enabled", "split:ipset-key-sweep")
-		} else if r.pct(55) || u.stress {
+		} else if (r.pct(55) || u.stress) && !u.plainFrag {
 			stride = 100 + r.intn(1000)
 			maxJ := []int{3, 6, 10, 20, 40, 80}[r.intn(6)]
 			if u.stress {
@@ -1381,15 +1388,19 @@ func main() {
 			opts = append(opts, polprog.WithPolicyMapIndexAndStride(base, stride), polprog.VerifWithMaxJumps(maxJ))
 			tags = append(tags, "split:enabled")
 		}
-		if r.pct(20) {
+		plain := stride == 0
+		if r.pct(20) && !u.plainFrag {
+			plain = false
 			opts = append(opts, polprog.WithTrampolineStride(12+r.intn(80)))
 			tags = append(tags, "asm-trampolines")
 		}
-		if r.pct(30) && !u.keyStress {
+		if r.pct(30) && !u.keyStress && !u.plainFrag {
+			plain = false
 			opts = append(opts, polprog.WithFlowLogs())
 			tags = append(tags, "flowlogs")
 		}
-		if r.pct(15) {
+		if r.pct(15) && !u.plainFrag {
+			plain = false
 			opts = append(opts, polprog.WithPolicyDebugEnabled())
 			tags = append(tags, "debug")
 		}
@@ -1450,7 +1461,7 @@ func main() {
 			rulesC := fmt.Sprintf("(Build_brules %s %s %s %s %s %s %s %s %s)", coqBool(rules.ForHostInterface), coqBool(rules.SuppressNormalHostPolicy),
 				coqBool(rules.ForXDP), tiersC, profC, preC, fwdC, normC, hprofC)
 			cfgC := fmt.Sprintf("%s %s %s %d %d %d %d", coqBool(v6), vrCoq, coqBool(useJmps), allow, deny, base, stride)
-			coq := fmt.Sprintf("(Build_case %s\n %s\n %s\n %s\n [%s])%%N", cfgC, rulesC, u.setsCoq(), resC, strings.Join(probes, ";\n "))
+			coq := fmt.Sprintf("(Build_case %s\n %s\n %s\n %s\n [%s] %s)%%N", cfgC, rulesC, u.setsCoq(), resC, strings.Join(probes, ";\n "), coqBool(plain && limit == 0))
 			sort.Strings(tags)
 			l := line{Coq: coq, NT: res.kind == "ok" && g.nRules >= 2 && g.nCrit >= 1 && !g.invalid, Feat: feat, Result: res.kind + ":" + res.msg,
 				Key:  fmt.Sprint(limit) + cfgC + rulesC + u.setsCoq(),
@@ -1513,7 +1524,7 @@ func emitWitnesses(enc *json.Encoder, vrCoq string) {
 		case "error":
 			resC = "CError"
 		}
-		coq := fmt.Sprintf("(Build_case %s %s true 3 4 0 0\n %s\n nST\n %s\n [%s])%%N", coqBool(x.v6), vrCoq, x.rulesC, resC, x.probe)
+		coq := fmt.Sprintf("(Build_case %s %s true 3 4 0 0\n %s\n nST\n %s\n [%s] true)%%N", coqBool(x.v6), vrCoq, x.rulesC, resC, x.probe)
 		enc.Encode(line{Coq: coq, NT: true, Feat: x.feat, Key: x.key, Result: res.kind + ":" + res.msg,
 			Tags:   []string{"witness:" + x.key, "compile:" + res.kind},
 			Sample: map[string]any{"witness": x.key, "compile": res.kind, "msg": res.msg, "instructions": nInsn}})
